@@ -882,7 +882,8 @@ pub fn run(ctx: Ctx) -> ! {
     }
     let capped = capped.load(Ordering::Relaxed);
     let mut cov = Map::new();
-    cov.insert("programs".into(), json!(progs.iter().map(|p| p.name()).collect::<Vec<_>>()));
+    cov.insert("program_names".into(), json!(progs.iter().map(|p| p.name()).collect::<Vec<_>>()));
+    cov.insert("programs".into(), json!(progs.len()));
     cov.insert("tips".into(), json!(tips.iter().map(tip_name).collect::<Vec<_>>()));
     cov.insert("costing_sets".into(), json!(sets.iter().map(|s| s.0.clone()).collect::<Vec<_>>()));
     cov.insert("groups".into(), json!(groups.len()));
